@@ -424,51 +424,9 @@ func init() {
 			fr.i.px.allocBudget = a[0]
 			return nil
 		},
-		"verifQuiesce": func(fr *frame, a []value) value {
-			// let every other goroutine run until all are blocked or done
-			s := fr.i.px.sched
-			g := fr.g
-			for {
-				others, waiting := false, false
-				for _, t := range s.threads {
-					if t == g || t.done {
-						continue
-					}
-					if s.enabled(t) {
-						others = true
-					} else {
-						waiting = true
-					}
-				}
-				if !others {
-					// only goroutines that are blocked can need a timer
-					if !waiting || !s.fireTimerBefore(fr.i.px.quiesceHorizon) {
-						break
-					}
-					continue
-				}
-				g.blocked = true
-				g.waitFn = func() bool {
-					for _, t := range s.threads {
-						if t != g && s.enabled(t) {
-							return false
-						}
-					}
-					return true
-				}
-				g.desc = "verifQuiesce"
-				s.reschedule(g, false)
-				g.blocked = false
-				g.waitFn = nil
-			}
-			n := 0
-			for _, t := range s.threads {
-				if t != g && !t.done {
-					n++
-				}
-			}
-			return n
-		},
+		"verifQuiesce": func(fr *frame, a []value) value { return quiesce(fr, true) },
+		// verifSettle: like verifQuiesce but pending timers stay pending (no virtual time passes)
+		"verifSettle": func(fr *frame, a []value) value { return quiesce(fr, false) },
 		"verifAdvanceClock": func(fr *frame, a []value) value {
 			px := fr.i.px
 			d := fr.i.concInt(a[0], "verifAdvanceClock")
@@ -563,4 +521,52 @@ func (px *PathCtx) noteSymbolicAlloc(fr *frame, n sym, elemSize int64) {
 		}
 		px.assume(tc.Not(over))
 	}
+}
+
+// quiesce lets every other goroutine run until all are blocked or done; with timers, pending
+// timers fire (virtual time advances) as long as a blocked goroutine could need one.
+func quiesce(fr *frame, timers bool) value {
+	// let every other goroutine run until all are blocked or done
+	s := fr.i.px.sched
+	g := fr.g
+	for {
+		others, waiting := false, false
+		for _, t := range s.threads {
+			if t == g || t.done {
+				continue
+			}
+			if s.enabled(t) {
+				others = true
+			} else {
+				waiting = true
+			}
+		}
+		if !others {
+			// only goroutines that are blocked can need a timer
+			if !timers || !waiting || !s.fireTimerBefore(fr.i.px.quiesceHorizon) {
+				break
+			}
+			continue
+		}
+		g.blocked = true
+		g.waitFn = func() bool {
+			for _, t := range s.threads {
+				if t != g && s.enabled(t) {
+					return false
+				}
+			}
+			return true
+		}
+		g.desc = "verifQuiesce"
+		s.reschedule(g, false)
+		g.blocked = false
+		g.waitFn = nil
+	}
+	n := 0
+	for _, t := range s.threads {
+		if t != g && !t.done {
+			n++
+		}
+	}
+	return n
 }
